@@ -118,6 +118,31 @@ func NewFuncVC(w *World, fn *ssa.Function, spec *FuncSpec) *FuncVC {
 	return vc
 }
 
+// mkIface builds an interface value and seeds the solver's term graph with its (tautological) projections, so that
+// quantifier patterns mentioning (i-ref x) match the constructed value.
+func (vc *FuncVC) mkIface(tag, ref Term) Term {
+	t := MkIface(tag, ref)
+	key := "mk:" + t.S
+	if !vc.namedOnce[key] && !strings.Contains(t.S, "!q") {
+		vc.namedOnce[key] = true
+		vc.implFacts = append(vc.implFacts, Eq(IRef(t), ref), Eq(ITag(t), tag))
+	}
+	return t
+}
+
+// globalFact records the type invariant of (the initial version of) a package-level variable.
+func (vc *FuncVC) globalFact(t Term, gt types.Type) {
+	if !strings.HasSuffix(t.S, ".0") {
+		return
+	}
+	f := vc.rangeAssumption(t, gt)
+	if f.S == "true" || vc.namedOnce["gf:"+f.S] {
+		return
+	}
+	vc.namedOnce["gf:"+f.S] = true
+	vc.implFacts = append(vc.implFacts, f)
+}
+
 func (vc *FuncVC) warn(f string, a ...interface{}) {
 	m := fmt.Sprintf(f, a...)
 	for _, x := range vc.warnings {
@@ -656,11 +681,6 @@ func (vc *FuncVC) resolveHeap(short string, pkg *types.Package) (string, Sort) {
 			if strings.HasSuffix(f, "[]") {
 				f = strings.TrimSuffix(f, "[]")
 			}
-			st, isS := cur.Underlying().(*types.Struct)
-			if !isS {
-				ok = false
-				break
-			}
 			if g := vc.w.ghostField(cur, f); g != nil {
 				var gpkg *types.Package
 				if g.Pkg != "" {
@@ -670,6 +690,11 @@ func (vc *FuncVC) resolveHeap(short string, pkg *types.Package) (string, Sort) {
 				ghostSort = gs
 				name += "." + f
 				continue
+			}
+			st, isS := cur.Underlying().(*types.Struct)
+			if !isS {
+				ok = false
+				break
 			}
 			found := false
 			for i := 0; i < st.NumFields(); i++ {
